@@ -39,17 +39,18 @@ struct Prog {
             char nm[16]; snprintf(nm, sizeof nm, plain ? "os%d" : "vcpu%d", os);
             auto fn = [this, os, plain, body] {
                 if (!plain && on_vcpu_start) on_vcpu_start(os);
+                // photon threads are created before the start barrier (their handles exist when the window opens);
+                // they first run when this vCPU's main thread blocks, i.e. after `go`
+                std::vector<photon::join_handle*> jh;
+                if (!plain) for (auto& p : pts) if (p.os == os) {
+                    PT* pp = &p;
+                    p.th = photon::thread_create11(64 * 1024, [this, pp, body] { body(*pp); pp->done = true; bodies_done++; });
+                    jh.push_back(photon::thread_enable_join(p.th));
+                }
                 ready++;
                 while (go.load() == 0) {}
                 if (plain) { for (auto& p : pts) if (p.os == os) { body(p); p.done = true; bodies_done++; } }
                 else {
-                    std::vector<photon::join_handle*> jh;
-                    for (auto& p : pts) if (p.os == os) {
-                        PT* pp = &p;
-                        p.th = photon::thread_create11(64 * 1024, [this, pp, body] { body(*pp); pp->done = true; bodies_done++; });
-                        if (thread_flags) { /* flags are applied by harnesses that need them */ }
-                        jh.push_back(photon::thread_enable_join(p.th));
-                    }
                     // keep finished threads (their structs) alive until every body is done: a waker on another vCPU may
                     // still hold a pointer to a waiter that timed out (see DESIGN.md, finding "stale waiter pointer")
                     if (!early_join) {
